@@ -11,6 +11,16 @@ FE = "fault_enumeration"
 EX = "exploration"
 
 CHECKS = {
+    "C01": dict(level=MC, ref="5/C01",
+                text="spec/InkSem.tla is a source-level operational semantics of core Ink without look-ahead, snapshot or "
+                     "rewind (statements take effect once, in program order; the lines of a turn are read off the output stream "
+                     "of spec/InkOutput.tla afterwards). Programs are generated as abstract syntax trees and rendered to Ink "
+                     "source; compiler + runtime play every choice path to a depth; TLC (InkSemTrace) steps the semantics over "
+                     "the same paths, one state per statement, and compares per turn lines + tags, choices (text, tags, order) "
+                     "and end status, and at the end of the path the globals and knot visit counts.",
+                note="bounded by the generated programs and path depth; the fragment is the one InkSem gives a meaning to "
+                     "(lists, floats, externals, random sequences are decided by C03/C07/C12)",
+                technique="TLC evaluation of the TLA+ source semantics InkSem over generated ASTs, compared with recorded plays of compiler + runtime"),
     "C09": dict(level=MC, ref="5/C09",
                 text="TLC validates every recorded host call of probed runs against the abstract protocol "
                      "specification InkHostAbs (rule Rejected: error result, no callbacks, observation including the "
